@@ -188,4 +188,6 @@ def run(tier):
             ck.finding("R6.sibling-arms", "R6.sibling-arms/%s/%s" % (a, b), F.short_span(ex.span),
                        "Op::%s and Op::%s are the same operation with a different key source, but access different operands: only %s does %s; only %s does %s "
                        "(equivalent syntactic forms behave differently)" % (a, b, a, only_a, b, only_b))
+    import inplace
+    inplace.rule(fx, ck)
     return ck.finish()
